@@ -29,11 +29,14 @@ fn class_of(prop: &str, spec: &RunSpec) -> Option<(String, String, String)> {
 fn simplifications(op: &Op) -> Vec<Op> {
     let mut out = Vec::new();
     match op {
-        Op::Query { site, mac, key, plan } => {
+        Op::Query { site, mac, key, plan, dp } => {
+            if dp.is_some() {
+                out.push(Op::Query { site: *site, mac: *mac, key: *key, plan: plan.clone(), dp: None });
+            }
             if !plan.is_empty() {
                 let mut p = plan.clone();
                 p.pop();
-                out.push(Op::Query { site: *site, mac: *mac, key: *key, plan: p });
+                out.push(Op::Query { site: *site, mac: *mac, key: *key, plan: p, dp: *dp });
             }
             for i in 0..plan.len() {
                 let a = &plan[i];
@@ -41,17 +44,17 @@ fn simplifications(op: &Op) -> Vec<Op> {
                     let mut p = plan.clone();
                     p[i].w = None;
                     p[i].inner = Inner::Nothing;
-                    out.push(Op::Query { site: *site, mac: *mac, key: *key, plan: p });
+                    out.push(Op::Query { site: *site, mac: *mac, key: *key, plan: p, dp: *dp });
                 }
                 if a.panic {
                     let mut p = plan.clone();
                     p[i].panic = false;
-                    out.push(Op::Query { site: *site, mac: *mac, key: *key, plan: p });
+                    out.push(Op::Query { site: *site, mac: *mac, key: *key, plan: p, dp: *dp });
                 }
                 if a.step != Step::Continue {
                     let mut p = plan.clone();
                     p[i].step = Step::Continue;
-                    out.push(Op::Query { site: *site, mac: *mac, key: *key, plan: p });
+                    out.push(Op::Query { site: *site, mac: *mac, key: *key, plan: p, dp: *dp });
                 }
             }
         }
